@@ -1,38 +1,29 @@
 ---- MODULE MC_ConsensusGroup ----
-(* R1 for layer 2: two classes of nodes (plain / rater weights), per class a node with a real (evicting)   *)
-(* group cache and a node without cache; configurations are replaced (EpochStartPrepare) in between.       *)
-(* The hash is an arbitrary function discovered lazily (H).  With ClearOnPrepare = FALSE the cache is not  *)
-(* cleared by SetConfig: TLC must then find the stale-group counterexample (vacuity guard of               *)
-(* Inv_C15_Reproducible / Inv_C15_GroupMembers).                                                           *)
+(* R1 for layer 2: per class a node with a real (evicting) group cache and a node without cache; all nodes *)
+(* of a class are re-configured together (EpochStartPrepare), the hash is an arbitrary function (H).       *)
+(* With ClearOnPrepare = FALSE the cache survives a re-configuration: TLC must then find the stale-group    *)
+(* counterexample (vacuity guard for Inv_C15_Reproducible / Inv_C15_GroupMembers).                          *)
 EXTENDS ConsensusGroup
-CONSTANTS MCKeys, MCChances, MaxLen, ClearOnPrepare
+CONSTANTS Seeds, Epochs, ShardIds, Classes, MCKeys, MCChances, MaxLen, MaxCh, ClearOnPrepare
 
-Nodes == Classes \X {"lru", "none"}
-Perms(S) == {s \in UNION {[1..n -> S] : n \in 1..MaxLen} : NoDup(s)}
-Configs == {[elig |-> e, ch |-> c, minch |-> 1, size |-> z] :
-               e \in Perms(MCKeys), c \in UNION {[1..n -> MCChances] : n \in 1..MaxLen}, z \in 1..MaxLen}
-OKConfigs == {c \in Configs : Len(c.ch) = Len(c.elig) /\ c.size <= Len(c.elig)}
-XsOf(c, class) == [1..c.size -> {Limbs(r) : r \in 0..(SeqSum(CfgWeights(c, class)) - 1)}]
+NodesOf(class) == {<<class, "lru", "a">>, <<class, "none", "b">>}
+Nodes == UNION {NodesOf(c) : c \in Classes}
+OKConfigs == UNION {{[elig |-> e, ch |-> c, minch |-> 1, size |-> z] :
+                        e \in {s \in [1..n -> MCKeys] : NoDup(s)}, c \in [1..n -> MCChances], z \in 1..n} : n \in 1..MaxLen}
+\* the hash of a seed yields MaxLen values whatever the configuration; any value is possible (the modulo is part of the algorithm)
+XsAll == [1..MaxLen -> {Limbs(r) : r \in 0..(MaxLen * MaxCh - 1)}]
 
 CInit ==
     /\ cfg = <<>> /\ H = <<>> /\ memo = <<>> /\ last = NoneLast
     /\ cache = [n \in Nodes |-> <<>>]
 
-SetConfigMC(class, ep, newc) ==
-    IF ClearOnPrepare THEN SetConfig(class, ep, newc)
-    ELSE /\ cfg' = [k \in (DOMAIN cfg \cup {<<class, ep, sh>> : sh \in DOMAIN newc}) |->
-                      IF k[1] = class /\ k[2] = ep /\ k[3] \in DOMAIN newc THEN newc[k[3]] ELSE cfg[k]]
-         /\ memo' = [k \in {x \in DOMAIN memo : ~(x[1] = class /\ x[3] = ep)} |-> memo[k]]
-         /\ last' = NoneLast
-         /\ UNCHANGED <<H, cache>>
-
 CNext ==
-    \/ \E class \in Classes, ep \in Epochs, newc \in [ShardIds -> OKConfigs] : SetConfigMC(class, ep, newc)
-    \/ \E n \in Nodes, seed \in Seeds, ep \in Epochs, sh \in ShardIds, ev \in BOOLEAN :
-          /\ <<n[1], ep, sh>> \in DOMAIN cfg
-          /\ \/ Compute(n, seed, ep, sh, <<>>, ev)
-             \/ \E xs \in XsOf(cfg[<<n[1], ep, sh>>], n[1]) : Compute(n, seed, ep, sh, xs, ev)
+    \/ \E class \in Classes, ep \in Epochs, newc \in [ShardIds -> OKConfigs] :
+          SetConfig(NodesOf(class), class, ep, newc, ClearOnPrepare)
+    \/ \E n \in Nodes, seed \in Seeds, ep \in Epochs, sh \in ShardIds :
+          /\ <<n, ep, sh>> \in DOMAIN cfg
+          /\ \/ Compute(n, seed, ep, sh, <<>>)
+             \/ \E xs \in XsAll : Compute(n, seed, ep, sh, xs)
 
 CSpec == CInit /\ [][CNext]_cvars2
-\* bound: number of reconfigurations is not bounded by the state (cfg is overwritten), so the graph is finite
 ====
